@@ -201,6 +201,9 @@ fn artefacts(ctx: &Ctx) -> (String, String) {
 		if prop == Prop::C04 && ctx.replay.as_ref().map_or(true, |r| r.workload == "accepted-characters") {
 			c04_accepted_characters(ctx);
 		}
+		if prop == Prop::C04 && ctx.replay.as_ref().map_or(true, |r| r.workload == "imported-names") {
+			c04_imported_names(ctx, &pool);
+		}
 	}
 	if matches!(prop, Prop::C01 | Prop::C04 | Prop::C05 | Prop::C07) && wants("csr") {
 		csrs::run(ctx, prop, &pool, if prop == Prop::C07 { ctx.scale(12_000, 250_000) } else { ctx.scale(3_000, 80_000) });
@@ -576,6 +579,119 @@ fn c04_accepted_characters(ctx: &Ctx) {
 			}
 		}
 	}
+}
+
+/// C04: names that rcgen did not make itself are re-emitted too (the issuer field of everything an
+/// imported CA issues, the subject of a certificate issued from an imported CSR). A foreign CA /
+/// CSR whose restricted strings contain any single byte 0x00..0xFF is offered for import; if the
+/// import is accepted, whatever is then emitted must still be strict DER within the alphabets.
+#[cfg(all(feature = "crypto", feature = "ossl"))]
+fn c04_imported_names(ctx: &Ctx, pool: &[crate::keys::PoolKey]) {
+	use crate::ctx::CaseId;
+	use openssl::asn1::Asn1Type;
+	let key = match pool.iter().find(|k| !k.is_remote() && k.sig == crate::ossl::SigAlg::EcdsaSha256) {
+		Some(k) => k,
+		None => return ctx.inconclusive("no local P-256 key in the pool"),
+	};
+	let leaf_key = crate::any_key();
+	let types = [
+		(Asn1Type::PRINTABLESTRING, "printable"),
+		(Asn1Type::IA5STRING, "ia5"),
+		(Asn1Type::T61STRING, "t61"),
+		(Asn1Type::UTF8STRING, "utf8"),
+	];
+	let mut texts: Vec<String> = (1u32..0x100).filter_map(char::from_u32).map(|c| format!("a{}b", c)).collect();
+	texts.extend(["R&D Labs", "under_score", "star*", "a@b", "", "Ł.example", "日本"].map(String::from));
+	let n = (types.len() * texts.len()) as u64;
+	crate::ctx::par_for(n, ctx.threads, |i| {
+		let case = CaseId::new("imported-names", 0, i);
+		if let Some(r) = &ctx.replay {
+			if r.index != i {
+				return;
+			}
+		}
+		let (ty, tyname) = types[(i as usize) % types.len()];
+		let text = &texts[(i as usize) / types.len()];
+		let label = format!("foreign CA subject O={:?} as {}", text, tyname);
+		let mut rng = case.rng();
+		let ca = match imports::make_ossl_ca_with(&mut rng, key, &[("C", Asn1Type::PRINTABLESTRING, "DE"), ("O", ty, text.as_str()), ("CN", Asn1Type::UTF8STRING, "imported")]) {
+			Ok(c) => c,
+			Err(_) => return ctx.count("outcome:imported-names:openssl-cannot-build"),
+		};
+		ctx.count("enum:imported-names");
+		let mut src_errs = Vec::new();
+		crate::derx::check_canonical(&ca.der, "foreign", &mut src_errs);
+		if !src_errs.is_empty() {
+			ctx.count("outcome:imported-names:foreign-name-outside-alphabet");
+		}
+		let der = pki_types::CertificateDer::from(ca.der.clone());
+		let params = match crate::guard(|| rcgen::CertificateParams::from_ca_cert_der(&der)) {
+			Ok(Ok(p)) => p,
+			Ok(Err(_)) => return ctx.count("outcome:imported-names:import-refused"),
+			Err(pn) => return ctx.violation("c04:import-panic", &case, &label, &pn),
+		};
+		ctx.count("outcome:imported-names:import-accepted");
+		let issuer_cert = match crate::guard(|| params.self_signed(&key.kp)) {
+			Ok(Ok(c)) => c,
+			Ok(Err(_)) => return ctx.count("outcome:imported-names:reissue-refused"),
+			Err(pn) => return ctx.violation("c04:cert-panic", &case, &label, &pn),
+		};
+		let mut emitted: Vec<(&str, Vec<u8>)> = vec![("re-issued CA certificate", issuer_cert.der().to_vec())];
+		let mut leaf = rcgen::CertificateParams::default();
+		leaf.distinguished_name.push(rcgen::DnType::CommonName, "leaf");
+		match crate::guard(|| leaf.signed_by(&leaf_key, &issuer_cert, &key.kp)) {
+			Ok(Ok(c)) => emitted.push(("leaf issued by the imported CA", c.der().to_vec())),
+			Ok(Err(_)) => ctx.count("outcome:imported-names:leaf-refused"),
+			Err(pn) => ctx.violation("c04:cert-panic", &case, &label, &pn),
+		}
+		let crl = rcgen::CertificateRevocationListParams {
+			this_update: time::OffsetDateTime::from_unix_timestamp(1_700_000_000).unwrap(),
+			next_update: time::OffsetDateTime::from_unix_timestamp(1_800_000_000).unwrap(),
+			crl_number: rcgen::SerialNumber::from(1u64),
+			issuing_distribution_point: None,
+			revoked_certs: vec![],
+			key_identifier_method: rcgen::KeyIdMethod::Sha256,
+		};
+		match crate::guard(|| crl.signed_by(&issuer_cert, &key.kp)) {
+			Ok(Ok(c)) => emitted.push(("CRL issued by the imported CA", c.der().to_vec())),
+			Ok(Err(_)) => ctx.count("outcome:imported-names:crl-refused"),
+			Err(pn) => ctx.violation("c04:crl-panic", &case, &label, &pn),
+		}
+		// the same name arriving as the subject of a CSR
+		if let Ok(csr) = imports_csr_with_subject(&key.der, ty, text) {
+			let cd = pki_types::CertificateSigningRequestDer::from(csr);
+			if let Ok(Ok(req)) = crate::guard(|| rcgen::CertificateSigningRequestParams::from_der(&cd)) {
+				ctx.count("outcome:imported-names:csr-accepted");
+				if let Ok(Ok(c)) = crate::guard(|| req.signed_by(&issuer_cert, &key.kp)) {
+					emitted.push(("certificate issued from an imported CSR", c.der().to_vec()));
+				}
+			}
+		}
+		for (what, der) in emitted {
+			ctx.count("eval:c04_imported_names_artefacts_walked");
+			let mut errs = Vec::new();
+			crate::derx::check_canonical(&der, "emitted", &mut errs);
+			for e in errs {
+				ctx.violation(&format!("c04:imported:{}", certs::classify(&e)), &case, &format!("{}: {}", label, what), &e);
+			}
+		}
+	});
+}
+
+#[cfg(all(feature = "crypto", feature = "ossl"))]
+fn imports_csr_with_subject(key_der: &[u8], ty: openssl::asn1::Asn1Type, text: &str) -> Result<Vec<u8>, String> {
+	let e = |x: openssl::error::ErrorStack| x.to_string();
+	let pkey = crate::ossl::load_private(key_der)?;
+	let mut nb = openssl::x509::X509NameBuilder::new().map_err(e)?;
+	nb.append_entry_by_text_with_type("O", text, ty).map_err(e)?;
+	nb.append_entry_by_text_with_type("CN", "requester", openssl::asn1::Asn1Type::UTF8STRING).map_err(e)?;
+	let name = nb.build();
+	let mut b = openssl::x509::X509ReqBuilder::new().map_err(e)?;
+	b.set_version(0).map_err(e)?;
+	b.set_subject_name(&name).map_err(e)?;
+	b.set_pubkey(&pkey).map_err(e)?;
+	b.sign(&pkey, openssl::hash::MessageDigest::sha256()).map_err(e)?;
+	b.build().to_der().map_err(e)
 }
 
 /// C02: the convenience entry points and accessors say the same thing as the encoded certificate.
